@@ -4,7 +4,7 @@
    (time, metrics, what IPFS resolves / returns), every Go-map iteration order ord, every pinset st that
    satisfies the invariant of reachable pinsets (inv, itself proved for every history), every call.
    step (CPin h o) is by definition step (CRpcPin (pin_with_opts h o)); path calls reduce to CID calls. *)
-From V Require Import Base.Common Model.C03_Alloc Model.C04_ClusterOps Proofs.C04_ClusterOps.
+From V Require Import Base.Common Model.C03_Alloc Model.C04_ClusterOps Proofs.C04_ClusterOps Model.C04_Check Proofs.C04_Check.
 From Coq Require Import Permutation.
 Open Scope Z_scope.
 
@@ -179,6 +179,21 @@ Print Assumptions histories.
 Theorem histories_step c e ord st k : inv st -> inv (snd (step c e ord st k)).
 Proof. exact (inv_step c e ord st k). Qed.
 Print Assumptions histories_step.
+
+(* --- the boolean monitor applied to the implementation's observations means what it should (soundness of the
+       clauses "refused => unchanged", "follower => refused", "one entry per CID"; st_equiv: same keys, entries equal
+       up to the order of allocations and of metadata) --- *)
+Theorem spec_okb_refused_sound c e st k x st' : spec_okb c e st k (OErr x) st' = true -> st_equiv st st'.
+Proof. exact (spec_okb_refused_sound_l c e st k x st'). Qed.
+Print Assumptions spec_okb_refused_sound.
+
+Theorem spec_okb_follower_sound c e st k q st' : spec_okb c e st k (OOk q) st' = true -> follower c = false.
+Proof. exact (spec_okb_follower_sound_l c e st k q st'). Qed.
+Print Assumptions spec_okb_follower_sound.
+
+Theorem spec_okb_one_entry c e st k r st' : spec_okb c e st k r st' = true -> NoDup (akeys st').
+Proof. exact (spec_okb_one_entry_l c e st k r st'). Qed.
+Print Assumptions spec_okb_one_entry.
 
 (* --- non-vacuity: a history that pins, re-pins with a metadata key removed, updates, unpins --- *)
 Example c04_example :
